@@ -418,6 +418,64 @@ def r12_exec_asserts(text):
     return ''.join(out), count
 
 
+def r11_split_or_guard(text):
+    """R11: `P1 | P2 if g => { b }` becomes `P1 if g => { b } P2 if g => { b }` (Verus rejects or-pattern + guard).
+    Only tuple patterns `( .. ) | ( .. )` with a block body are handled; anything else is left alone."""
+    count = 0
+    while True:
+        toks = lex(text)
+        hit = None
+        for k, t in enumerate(toks):
+            if t.kind == 'punct' and t.text == '|':
+                p, nx = _prev_code(toks, k), _next_code(toks, k)
+                if p < 0 or nx >= len(toks) or toks[p].text != ')' or toks[nx].text != '(':
+                    continue
+                # start of first pattern: matching '(' of toks[p]
+                depth, a = 0, p
+                while a >= 0:
+                    if toks[a].kind == 'punct' and toks[a].text == ')': depth += 1
+                    elif toks[a].kind == 'punct' and toks[a].text == '(':
+                        depth -= 1
+                        if depth == 0: break
+                    a -= 1
+                if a < 0: continue
+                b = match_close(toks, nx)
+                g = _next_code(toks, b)
+                if g >= len(toks) or toks[g].text != 'if':
+                    continue
+                # previous code token before the first pattern must end an arm / open the match
+                pa = _prev_code(toks, a)
+                if pa >= 0 and toks[pa].text not in ('{', '}', ','):
+                    continue
+                # guard runs to '=>'
+                j, depth = g + 1, 0
+                while j < len(toks) - 1:
+                    x = toks[j]
+                    if x.kind == 'punct':
+                        if x.text in '([{': depth += 1
+                        elif x.text in ')]}': depth -= 1
+                        elif x.text == '=' and toks[j + 1].text == '>' and depth == 0:
+                            break
+                    j += 1
+                body_open = _next_code(toks, j + 1)
+                if toks[body_open].text != '{':
+                    raise Undecided('unsupported construct: or-pattern with guard and a non-block arm body')
+                body_close = match_close(toks, body_open)
+                hit = (a, p, nx, b, g, j, body_open, body_close)
+                break
+        if not hit:
+            return text, count
+        a, p, nx, b, g, j, bo, bc = hit
+        pat1 = ''.join(t.text for t in toks[a:p + 1])
+        pat2 = ''.join(t.text for t in toks[nx:b + 1])
+        guard = ''.join(t.text for t in toks[g:j]).strip()
+        body = ''.join(t.text for t in toks[bo:bc + 1])
+        pre = ''.join(t.text for t in toks[:a])
+        post = ''.join(t.text for t in toks[bc + 1:])
+        text = '%s%s %s => %s\n            %s %s => %s%s' % (pre, pat1, guard, body, pat2, guard, body, post)
+        count += 1
+
+
 def find_loops(text):
     """positions (char offsets of the opening '{' of the body) of `loop`, `while`, `for` loops in order"""
     toks = lex(text)
